@@ -32,7 +32,7 @@ def default_points(seed, k, nvars):
     return H.rat_points(seed + 12345, k, -0.9, 0.9, nvars)
 
 def check(ctx, tag, items, specs, vars_, assume, nat, specq=None, specval=None, maxdeg=None, points=None, functions=(), bounds=None,
-          timeout_ms=60000, nvalid=12, tol=1e-10):
+          timeout_ms=60000, nvalid=12, tol=1e-10, abs_tol=None):
     """items: [(label, code_term)], specs: {label: z3 term}; nat: declarative native call (dict) ;
     specq: {label: {mono: Fraction}} (exact evaluation of the spec) or specval(point) -> {label: Fraction}"""
     lib = H.native(ctx, nat['wrapper'])
@@ -56,7 +56,8 @@ def check(ctx, tag, items, specs, vars_, assume, nat, specq=None, specval=None, 
     queries = 0; nontriv = 0; solver_s = 0.0; cexs = []; unknown = []; sample = None
     for label, code in items:
         spec = specs[label]
-        st, model, dt = rsym.prove(code == spec, assume, timeout_ms=timeout_ms); queries += 1; solver_s += dt
+        claim = (code == spec) if abs_tol is None else z3.And(code - spec <= rsym.RV(Fraction(abs_tol)), spec - code <= rsym.RV(Fraction(abs_tol)))
+        st, model, dt = rsym.prove(claim, assume, timeout_ms=timeout_ms); queries += 1; solver_s += dt
         fresh = z3.Real('fresh_code_value')
         st2, _, dt2 = rsym.prove(fresh == spec, assume, timeout_ms=5000); queries += 1; solver_s += dt2
         if st2 == 'sat': nontriv += 1
